@@ -1,2 +1,3 @@
 import SppModel.Model.Basic
 import SppModel.Model.Bits
+import SppModel.Model.Plan
